@@ -6,6 +6,7 @@
 (*   Reset {period, every, use_align, fill, sink}   sink = the batches the  *)
 (*          log sink saw for this group, in order: [{tmax, pts: [[t,seq],..]}] *)
 (*   Point {t, seq}     the group received this point                       *)
+(*   Quiet {idle}       every group of the task has been deleted (see below) *)
 (*   End                the task was stopped (StopTask drains; the window   *)
 (*                      node flushes nothing)                               *)
 (* Verdict level: every batch the abstract window (WindowTime) emits must   *)
@@ -18,10 +19,10 @@
 (* which it no longer refines the abstract buffer is reported ("RING-DRIFT") *)
 (* but is not a verdict.  Branches taken by the ring model are counted in   *)
 (* TLC registers and printed at the end ("RING-HITS").                      *)
-EXTENDS WindowRing, TraceCommon
+EXTENDS WindowBarrier, TraceCommon
 
 VARIABLES l, obs
-trvars == <<cfg, st, recv, out, n, ring, hit, remit, l, obs>>
+trvars == <<cfg, st, recv, out, n, ring, hit, remit, nb, l, obs>>
 
 G == CHOOSE g \in Groups : TRUE
 
@@ -40,6 +41,7 @@ TrInit ==
     /\ ring = [g \in Groups |-> Ring0]
     /\ hit = [g \in Groups |-> {}]
     /\ remit = [g \in Groups |-> <<>>]
+    /\ nb = 0
     /\ l = 1
     /\ obs = <<>>
     /\ HWInit
@@ -59,6 +61,7 @@ TrReset ==
     /\ hit' = [g \in Groups |-> {}]
     /\ remit' = [g \in Groups |-> <<>>]
     /\ obs' = Ln.sink
+    /\ UNCHANGED nb
 
 RingOK == RingRefinesSeq /\ RingEmitsBuf /\ RingWellFormed
 
@@ -73,15 +76,63 @@ TrPoint ==
             /\ Head(obs).pts = b.pts
             /\ obs' = Tail(obs)
     /\ CountHits(hit'[G])
-    /\ (RingOK' \/ PrintT(<<"RING-DRIFT at line", l>>))
+    /\ UNCHANGED nb
+    \* IF, not a disjunction: TLC would split "A \/ PrintT" into two successor branches and always print
+    /\ IF RingOK' THEN TRUE ELSE PrintT(<<"RING-DRIFT at line", l>>)
+
+(* Quiet {idle}: the driver observed that the window node holds no group any *)
+(* more (working_cardinality 0 after every point written so far had been    *)
+(* taken by the node, and no barrier can have fired before that).  For a    *)
+(* group that exists this means: the idle barrier fired with time = last    *)
+(* point time + idle - the window handles it like WindowBarrier.Barrier, a  *)
+(* batch it emits must be the next one the sink saw and must hold exactly   *)
+(* the received points of its interval - and then the group was deleted:    *)
+(* its state is dropped, the come-back starts an empty window.              *)
+TrQuiet ==
+    /\ IsEv("Quiet")
+    /\ IF ~st[G].started
+       THEN UNCHANGED <<cfg, st, recv, out, n, ring, hit, remit, nb, obs>>
+       ELSE LET t  == st[G].last + Ln.idle
+                r  == BStep(cfg, st[G], t)
+                rs == RBStep(cfg, ring[G], st[G].due, t)
+            IN /\ IF r.em = <<>>
+                  THEN obs' = obs
+                  ELSE LET b == r.em[1]  T == b.tmax IN
+                       /\ obs # <<>>
+                       /\ Head(obs).tmax = T
+                       /\ Head(obs).pts = b.pts
+                       /\ obs' = Tail(obs)
+                       \* the property, for a barrier-triggered batch
+                       /\ b.pts = IF cfg.every = 0
+                                  THEN SelectSeq(recv[G], LAMBDA q : PT(q) > T - cfg.period /\ PT(q) <= T)
+                                  ELSE SelectSeq(recv[G], LAMBDA q : PT(q) >= T - cfg.period /\ PT(q) < T)
+               /\ CountHits(rs.h)
+               /\ IF rs.em = [i \in DOMAIN r.em |-> r.em[i].pts] /\ RingPoints(rs.r) = r.s.buf
+                  THEN TRUE ELSE PrintT(<<"RING-DRIFT at line", l>>)
+               /\ st' = [st EXCEPT ![G] = Group0]
+               /\ recv' = [recv EXCEPT ![G] = <<>>]
+               /\ out' = [out EXCEPT ![G] = <<>>]
+               /\ ring' = [ring EXCEPT ![G] = Ring0]
+               /\ hit' = [hit EXCEPT ![G] = {}]
+               /\ remit' = [remit EXCEPT ![G] = <<>>]
+               /\ UNCHANGED <<cfg, n, nb>>
+
+(* Holds {groups, phase_groups}: when the node had processed the points of  *)
+(* a phase (and before any idle barrier could fire) its working_cardinality *)
+(* was `groups`; every group of earlier phases had been deleted, so it must *)
+(* hold exactly one window per group it was given points for in this phase. *)
+TrHolds ==
+    /\ IsEv("Holds")
+    /\ Ln.groups = Ln.phase_groups
+    /\ UNCHANGED <<cfg, st, recv, out, n, ring, hit, remit, nb, obs>>
 
 TrEnd ==
     /\ IsEv("End")
     /\ Ln.failed = FALSE      \* no node of the task died
     /\ obs = <<>>            \* the sink saw nothing the window should not have emitted
-    /\ UNCHANGED <<cfg, st, recv, out, n, ring, hit, remit, obs>>
+    /\ UNCHANGED <<cfg, st, recv, out, n, ring, hit, remit, nb, obs>>
 
-TrNext == TrReset \/ TrPoint \/ TrEnd
+TrNext == TrReset \/ TrPoint \/ TrQuiet \/ TrHolds \/ TrEnd
 TrSpec == TrInit /\ [][TrNext]_trvars
 
 HW == HWMark(l)
